@@ -1,15 +1,17 @@
 //! Conformance harness for the TLA+ specifications in /verif/spec.
 //!
 //! The engine is a binary-only crate, so its modules are included by path: the
-//! harness always compiles the current working tree of /repo.  The harness never
+//! harness always compiles the current working tree of the repository that the symlink
+//! harness/repo_link points at (/repo; created by setup.sh and by tools/vlib.py, which honour
+//! TCHERAN_REPO so that a scratch worktree can be checked without touching /repo).  The harness never
 //! judges anything itself: it records what the engine does (ND-JSON events that
 //! TLC validates against the specification) and replays what TLC generated,
 //! reporting the engine's observable answer next to the specification's.
 #![allow(warnings)]
 
-#[path = "/repo/src/chess/mod.rs"]
+#[path = "../repo_link/src/chess/mod.rs"]
 mod chess;
-#[path = "/repo/src/engine/mod.rs"]
+#[path = "../repo_link/src/engine/mod.rs"]
 mod engine;
 
 use engine::uci;
